@@ -14,9 +14,10 @@ static uint64_t min_interval(uint64_t ni) {                   // ceil(TXC * Ni *
 }
 
 // cfg: [0] r, [1] begun, [2] prior Ni, [3] now_ms
+static uint64_t g_late_ms = 0;   // how long after the block deadline the block is closed (0 = deadline not set at all)
 static std::string step(void *band, uint64_t r, bool begun, uint64_t prior, uint64_t now, uint64_t *ni_out, uint64_t *iv_out) {
     br_band b{};
-    b.Ni = (uint32_t)prior; b.r = (uint32_t)r; b.begun = begun; b.hello_ts = 0; b.block_ts = 0;
+    b.Ni = (uint32_t)prior; b.r = (uint32_t)r; b.begun = begun; b.hello_ts = 0; b.block_ts = g_late_ms ? now - (g_late_ms - 1) : 0;
     br_band_set(band, &b);
     vp_set_now_ms(now);
     br_band_update_stats(band);
@@ -44,6 +45,7 @@ static Verdict run_tick(const Case &c) {
     Verdict v;
     uint64_t r = (uint64_t)std::max<int64_t>(0, std::min<int64_t>(c.c(0), 100000));
     bool hello_due = c.c(5) == 2;
+    uint64_t late = (uint64_t)std::max<int64_t>(0, std::min<int64_t>(c.c(6), 5000));   // the tick that closes the block comes this many ms after the deadline
     World w;
     void *en = br_init_enumeration(), *tb = br_st_create();
     void *band = br_aut_extra(en);
@@ -57,8 +59,8 @@ static Verdict run_tick(const Case &c) {
     bool begun = b.begun != 0;
     uint64_t prior = b.Ni, last = 0;
     int user = 1;
-    if (hello_due) { b.hello_ts = 10300; br_band_set(band, &b); }
-    vp_set_now_ms(10300);                       // block deadline reached; Hello deadline none pending (mode 1) or due now (mode 2)
+    if (hello_due) { b.hello_ts = 10300 + late; br_band_set(band, &b); }
+    vp_set_now_ms(10300 + late);                       // block deadline reached; Hello deadline none pending (mode 1) or due now (mode 2)
     br_tick(nullptr, en, tb, &user, &last, noop_hello, 1);
     br_band_get(band, &b);
     // a Hello transmitted earlier in the same tick begins the enumeration (band_do_hello), so the block that ends in this tick is judged with begun = true
@@ -67,8 +69,8 @@ static Verdict run_tick(const Case &c) {
     if (begun != (r >= 10)) v.fail(fmt("after %llu Hellos heard in the first block 'begun' is %d (documented: begins once GAMMA = 10 were heard)", (unsigned long long)r, begun));
     else if (b.Ni != wni) v.fail(fmt("tick path: after %llu Hellos heard and a block timeout%s Ni=%u, formula gives %llu", (unsigned long long)r, hello_due ? " in a tick that also sent a Hello" : "", b.Ni, (unsigned long long)wni));
     else if (b.r != 0) v.fail("tick path: counter not reset at the end of the block");
-    else if (b.hello_ts < 10300 + min_interval(wni)) v.fail(fmt("tick path: after %llu Hellos heard and a block timeout%s the next Hello is due %llu ms after the tick; the load formula for Ni=%llu demands >= %llu ms",
-                                                               (unsigned long long)r, hello_due ? " in a tick that also sent a Hello" : "", (unsigned long long)(b.hello_ts - 10300), (unsigned long long)wni, (unsigned long long)min_interval(wni)));
+    else if (b.hello_ts < 10300 + late + min_interval(wni)) v.fail(fmt("tick path: after %llu Hellos heard and a block timeout%s the next Hello is due %llu ms after the tick; the load formula for Ni=%llu demands >= %llu ms",
+                                                               (unsigned long long)r, hello_due ? " in a tick that also sent a Hello" : "", (unsigned long long)(b.hello_ts - 10300 - late), (unsigned long long)wni, (unsigned long long)min_interval(wni)));
     br_st_destroy(tb);
     br_automata_destroy(en);
     v.nontrivial = r > 0 && begun_at_block_end;
@@ -84,6 +86,7 @@ static Verdict run(const Case &c) {
     void *band = br_aut_extra(en);
     uint64_t r = (uint64_t)c.c(0) & 0xFFFFFFFFu, prior = (uint64_t)c.c(2, 45), now = (uint64_t)c.c(3, 1000);
     bool begun = c.c(1) != 0;
+    g_late_ms = (uint64_t)std::max<int64_t>(0, std::min<int64_t>(c.c(6), (int64_t)now));   // cfg[6]: lateness + 1 of the closing call (0: no deadline armed)
     uint64_t ni, iv;
     std::string e = step(band, r, begun, prior, now, &ni, &iv);
     if (!e.empty()) v.fail(e);
@@ -101,7 +104,8 @@ static Verdict run(const Case &c) {
 }
 
 static bool one(const Args &a, Evidence &ev, uint64_t r, int begun, uint64_t prior, const char *part) {
-    Case c; c.cfg = {(int64_t)r, begun, (int64_t)prior, 5000, 1};
+    static const int64_t lates[] = {0, 1, 2, 61, 201, 300, 301, 1001, 4000};   // the count is what was HEARD, however late the block is closed
+    Case c; c.cfg = {(int64_t)r, begun, (int64_t)prior, 5000, 1, 0, lates[(r * 7 + (uint64_t)begun + prior) % 9]};
     CurrentScope scope(c);
     Verdict v = run(c);
     ev.note(c.digest(), v.nontrivial && v.ok, [&] { return c.to_text(); });
@@ -177,7 +181,8 @@ int main(int argc, char **argv) {
             ok = one(a, ev, rs[i], begun, priors[(i / a.nshards + begun) % priors.size()], "c13-sample");
     // through automata_tick's block-timeout path (mode 1) and with the Hello deadline due in the same tick (mode 2)
     for (uint64_t rr = a.shard; rr <= 401 && ok; rr += a.nshards) {
-        Case c; c.cfg = {(int64_t)(rr % 201), 0, 0, 10300, 0, rr > 200 ? 2 : 1};
+        static const int64_t tlates[] = {0, 0, 1, 60, 200, 299, 1000};
+        Case c; c.cfg = {(int64_t)(rr % 201), 0, 0, 10300, 0, rr > 200 ? 2 : 1, tlates[rr % 7]};
         CurrentScope scope(c);
         Verdict v = run(c);
         ev.note(c.digest(), v.nontrivial && v.ok, [&] { return c.to_text(); });
